@@ -1326,6 +1326,34 @@ def std_model(I, p, fr, t, args):
         if k_ > len(d0.items):
             return "diverge"
         return Adt(None, None, {"0": Vec(d0.items[:k_]), "1": Vec(d0.items[k_:])})
+    if n in ("chunks", "rchunks", "chunks_exact", "rchunks_exact", "windows") and isinstance(d0, Vec) and len(args) > 1 and isinstance(I.deref(args[1]), int) \
+            and not isinstance(I.deref(args[1]), bool) and c.startswith("core::slice::"):
+        k_ = I.deref(args[1])
+        if k_ <= 0:
+            return "diverge"
+        xs = d0.items
+        if n == "windows":
+            return Iter([Vec(xs[i:i + k_]) for i in range(0, max(len(xs) - k_ + 1, 0))])
+        if n.startswith("r"):
+            parts = []
+            j = len(xs)
+            while j > 0:
+                parts.append(Vec(xs[max(j - k_, 0):j]))
+                j -= k_
+        else:
+            parts = [Vec(xs[i:i + k_]) for i in range(0, len(xs), k_)]
+        if n.endswith("_exact"):
+            parts = [p_ for p_ in parts if len(p_.items) == k_]
+        return Iter(parts)
+    if n == "truncate" and isinstance(d0, Vec) and len(args) > 1 and isinstance(I.deref(args[1]), int) and c.startswith("alloc::vec"):
+        del d0.items[I.deref(args[1]):]
+        return Adt(None, None, {})
+    if n in ("split_last", "split_first") and isinstance(d0, Vec) and c.startswith("core::slice::"):
+        if not d0.items:
+            return Adt("core::option::Option", "None", {})
+        if n == "split_last":
+            return Adt("core::option::Option", "Some", {"0": Adt(None, None, {"0": d0.items[-1], "1": Vec(d0.items[:-1])})})
+        return Adt("core::option::Option", "Some", {"0": Adt(None, None, {"0": d0.items[0], "1": Vec(d0.items[1:])})})
     if n == "next_multiple_of" and len(args) == 2 and all(isinstance(I.deref(a), int) and not isinstance(I.deref(a), bool) for a in args) and I.deref(args[1]) > 0:
         a_, b_ = I.deref(args[0]), I.deref(args[1])
         return ((a_ + b_ - 1) // b_) * b_
@@ -1483,7 +1511,7 @@ def std_model(I, p, fr, t, args):
     if n == "is_multiple_of" and isinstance(d0, int) and isinstance(I.deref(args[1]), int) and I.deref(args[1]) != 0:
         return d0 % I.deref(args[1]) == 0
     if n in ("eq", "ne") and len(args) == 2:
-        r = tri_eq(I.deref(args[0]), I.deref(args[1]))
+        r = tri_eq(I.deref(args[0]), I.deref(args[1]), I)
         if r is None:
             return Unknown("eq")
         return r if n == "eq" else (not r)
@@ -1826,8 +1854,13 @@ def std_model(I, p, fr, t, args):
     return NotImplemented
 
 
-def tri_eq(a, b):
-    """three-valued structural equality: True / False / None (unknown)"""
+def tri_eq(a, b, I=None):
+    """three-valued structural equality: True / False / None (unknown); references inside values (`Some(&x)`) compare by what they
+    point to, as Rust's PartialEq does"""
+    if I is not None:
+        a, b = I.deref(a), I.deref(b)
+    elif isinstance(a, Ref) or isinstance(b, Ref):
+        return None
     if isinstance(a, (Unknown,)) or isinstance(b, (Unknown,)):
         return None
     if isinstance(a, Sym) or isinstance(b, Sym):
@@ -1837,7 +1870,7 @@ def tri_eq(a, b):
             return False
         res = True
         for k in set(a.fields) | set(b.fields):
-            r = tri_eq(a.fields.get(k, Unknown()), b.fields.get(k, Unknown()))
+            r = tri_eq(a.fields.get(k, Unknown()), b.fields.get(k, Unknown()), I)
             if r is False:
                 return False
             if r is None:
@@ -1848,7 +1881,7 @@ def tri_eq(a, b):
             return False
         res = True
         for x, y in zip(a.items, b.items):
-            r = tri_eq(x, y)
+            r = tri_eq(x, y, I)
             if r is False:
                 return False
             if r is None:
